@@ -182,7 +182,7 @@ impl TcpSeg {
         {
             let mut tcph = self.tcp.get_mut(&self.pkt);
 
-            tcph.set_csum(ip_csum_fold(ip_phdr + tcp_hdr + payload));
+            tcph.set_csum(ip_csum_fold(ip_phdr.wrapping_add(tcp_hdr).wrapping_add(payload)));
         }
 
         self
